@@ -43,6 +43,11 @@ add('C13', 'fault_enumeration',
     'Recovery tolerances/tails are pinned constants per filter and gain set (calibrated on the repaired tree) combined with a relative criterion (half of the peak lag shed); Fourati gets the safety oracle only; LinAlgError counts as breakdown, not refusal; filters already invalid without dropouts are left to C03.',
     'deterministic simulation: enumerated + seeded dropout injection on the sensor bus, twin-run recovery oracle, replay files', 'DESIGN.md section 2 C13')
 
+add('C03', 'exploration',
+    'Seeded search over histories, fault sequences and configurations: every class exported by ahrs.filters is both streamed on the shared sensor bus (seeded interleaving) and run through its batch constructor over histories with glitch/scale/stuck/dup faults, kicks, magnitudes over decades and exact canonical poses; after every step and on every batch row the output must be one finite real unit quaternion (or proper rotation / finite angle triple) per sample. For the recursive filters this exercises state carried over histories; for single-frame estimators the simulator is only an input source (stated in the evidence).',
+    'Inputs are well-formed by construction, so any exception is a violation; 1e-9 tolerances; 13 open known findings (UKF breakdown; closed-form singularities of SAAM/FAMC/FLAE/FQA/QUEST at exact axis-aligned poses; FLAE symbolic on exactly consistent data) are keyed by component, symptom and an input-feature trigger pattern.',
+    'deterministic simulation: seeded scheduler + sensor-bus fault injection, per-step validity invariant on real filter instances', 'DESIGN.md section 2 C03')
+
 def build():
     m = {
         'version': 1,
